@@ -21,7 +21,9 @@ CHECKS = {
         technique='exhaustive enumeration of content-model trees up to a node/deviation bound; Glushkov position-automaton reference; every model built by the real constructor',
         text='Model checking by bounded exhaustive enumeration: every content-model tree with up to 4 nodes over 8 occurrence '
              'ranges, 5 nodes with <= 3 (5 ranges) / <= 2 (8 ranges) non-default ranges, 6 nodes with <= 1, canonical up to leaf '
-             'renaming, plus every single-leaf replacement by an EDC-typed leaf, 4 wildcards, substitution heads and member refs, for '
+             'renaming, plus every single-leaf replacement by an EDC-typed leaf, 4 wildcards, substitution heads and member refs, every pair of same-named leaves with '
+             'distinct anonymous / untyped / explicit xs:anyType types, and every ordered pair of leaves replaced by (head of a deep substitution group, its member reached through an abstract '
+             'intermediate member), for '
              'both processors. Each model is built by the real schema constructor (lax packed + strict re-check) and the verdict is '
              'compared with an independent position automaton (occurrence ranges unrolled, conflicts only between different particles).',
         design_ref='DESIGN.md section 2, C15',
@@ -51,7 +53,8 @@ CHECKS = {
              'non-seekable streams is refused with XMLResourceOSError.'),
     'C10': dict(
         technique='explicit-state exploration of call histories on one schema object: unmerged history tree to depth 2/3 + merged BFS to fixpoint over object-graph fingerprints',
-        text='Model checking by explicit-state search: 94 events (8 public operations x 11 documents built to collide on shared mutable state, plus '
+        text='Model checking by explicit-state search: 143 events (8 public operations x 17 documents built to collide on shared mutable state - xsi:type with blocked / extended / '
+             'identity-carrying types, list-typed key fields, substitution, IDs, assertions, attributes and elements of a namespace that is loaded on demand - plus '
              'direct simple-type calls through the per-schema scratch context). Pass A replays EVERY history of length 2 (quick) / 3 (thorough) on a '
              'fresh schema without merging and compares the last result with the fresh-schema result; pass B is a breadth-first search to fixpoint '
              'over states merged by a generic fingerprint of every mutable container reachable from the schema, evaluating the invariant in every state.',
@@ -72,13 +75,16 @@ CHECKS = {
         technique='exhaustive enumeration of base models x single edits; exact language inclusion on the product of reference DFAs; witness replayed on the implementation',
         text='Model checking by bounded exhaustive enumeration: every base content model with 2 nodes (8 ranges), 3 nodes (<= 2 non-default ranges, + one '
              'wildcard leaf) and 4 nodes (<= 1) x EVERY single edit of a catalogue (occurrence moved to any of 8 ranges, drop/add/rename particle, keep one '
-             'choice branch, element<->wildcard, wrap/unwrap, swap, switch group kind) declared as a complexContent restriction, for both processors; plus '
+             'choice branch (also with another range), element<->wildcard, wildcard->wildcard incl. notNamespace, leaf->group, wrap/unwrap, swap, switch group kind) declared as a complexContent '
+             'restriction, for both processors; the same pairs (2 and 3 nodes, no wildcard edits) declared through xs:redefine in four forms (complex type, named group, and the two-step '
+             'chains a.xsd -> b.xsd -> c.xsd whose middle step carries the edit); 60 sequence(element, choice(element | wildcard)) bases; facet pairs (integer / string / decimal: every base '
+             'facet set of size 1 (thorough 2) x every derived set of size <= 2 x a boundary value catalogue); plus '
              'the complete product of 7 base x 8 derived attribute uses x types x attribute wildcards x 18 attribute sets. When the library accepts the '
              'schema, inclusion L(R) <= L(B) is decided exactly on the product automaton (unbounded word length) and a shortest counter-word is replayed: '
              'a violation needs the implementation itself to accept it for the derived type and reject it for the base type.',
         design_ref='DESIGN.md section 2, C14',
-        note='Trusted: mc/ref/regex.py (Thompson NFA + subset construction), mc/gen/edits.py. Facet pairs and xs:redefine are not covered yet. '
-             'The converse (valid restriction refused) is not claimed. ~2.1k accepted-but-widening restrictions are listed per (base, derived, witness) in known_findings.jsonl.'),
+        note='Trusted: mc/ref/regex.py (Thompson NFA + subset construction), mc/gen/edits.py. '
+             'The converse (valid restriction refused) is not claimed. The accepted-but-widening restrictions are listed per (base, derived, witness) in known_findings.jsonl.'),
     'C18': dict(
         technique='stateless exploration of every thread schedule up to a preemption bound (iterative context bounding) on real threads under a controlled scheduler',
         text='Model checking of the implementation: 2 real threads (3 in one thorough harness) share one schema object; a hand-written scheduler serialises them '
@@ -161,8 +167,8 @@ CHECKS = {
              'root last (error order), duplicate ID blamed on the root, lazy decode second pass loses chunk xmlns / identity checks above the chunk, to_objects(lazy) AssertionError.'),
     'C20': dict(
         technique='exhaustive enumeration of every element path form of every valid instance of small schemas; governing declaration observed through extra_validator; partial vs whole-document differential',
-        text='Model checking by bounded exhaustive enumeration: 23 generated schemas (same local name with different types under different parents, refs, substitution members, named types, '
-             'nesting, choice, attributes, identity, unqualified locals; with and without target namespace) and 3 corpus schemas; ALL valid instances up to 11 (thorough 15 = complete) '
+        text='Model checking by bounded exhaustive enumeration: generated schemas (same local name with different types under different parents, refs, substitution members, named types, '
+             'nesting, choice, attributes, identity, unqualified locals; with and without target namespace, one also written in a schema document that binds a default namespace) and 3 corpus schemas; ALL valid instances up to 11 (thorough 15 = complete) '
              'elements and single-fault variants; for EVERY element every path form (own path with/without predicates, absolute/relative, * steps, //name, three prefix spellings) through '
              'find/findall/iterfind/get_element, and iter_errors/is_valid/decode with path= and max_depth in {0,1,2,3,None}. The governing declaration recorded during a full validation must be '
              'what the schema path finds; path-restricted results must equal the restriction of the whole-document result; max_depth=k must equal the full result cut at k.',
@@ -192,7 +198,7 @@ CHECKS = {
         technique='exhaustive enumeration of deterministic content-model trees x all child sequences up to a length bound; regular-language reference (Thompson NFA / DFA) replayed through iter_errors',
         text='Model checking by bounded exhaustive enumeration: every content-model tree with <= 3 nodes over 8 occurrence ranges, 4 nodes (5 ranges; <= 2 non-default complete in quick, all in '
              'thorough), 5 nodes with <= 1 non-default (8 ranges), that the Glushkov reference finds deterministic and the library accepts; leaf variants (global refs, substitution heads incl. '
-             'abstract, 4 lax wildcards), named-group references, all-groups (1.0 and 1.1 with occurrence ranges and wildcards) and XSD 1.1 open content (interleave/suffix x 3 wildcards); for each '
+             'an abstract head and a member reached only through an abstract intermediate member, 4 lax wildcards), named-group references, all-groups (1.0 and 1.1 with occurrence ranges and wildcards) and XSD 1.1 open content (interleave/suffix x 3 wildcards); for each '
              'model EVERY child sequence over its own symbols plus an undeclared name up to a per-model length bound. Validity must equal membership in the regular language and a rejected '
              'sequence must carry an error on the parent element.',
         design_ref='DESIGN.md section 2, C01',
